@@ -49,13 +49,23 @@ def c07(chk):
                        what="the real connections", strip=("walks",), timeout=3400)
     for k, n in st["by_op"].items():
         ops[k] = ops.get(k, 0) + n
+    # both directions at the same time, in volume (flow-control stalls, buffers shared between directions)
+    mib = 1 << 20
+    bulk = [[["Bulk", 3 * mib, 32768]], [["Bulk", mib, 100000]], [["Bulk", 300000, 4096]]]
+    if not quick:
+        bulk += [[["Bulk", 32 * mib, 65536]], [["Bulk", 8 * mib, 1 << 20]], [["Bulk", 2 * mib, 1000]]] * 3
+    v, st = engine.run(chk, "weng", {"paths": ["pair", "tunnel1", "tunnel2", "chain"], "behaviours": bulk},
+                       "bulk", "TraceWs", TRACE_CONSTS, ["NoStepViolation"], "weng-trace",
+                       what="the real connections", strip=("walks",), timeout=3400)
+    for k, n in st["by_op"].items():
+        ops[k] = ops.get(k, 0) + n
     walks = {"paths": ["pair", "tunnel1", "tunnel2", "chain"], "walks": 12 if quick else 400, "depth": 60}
     v, st = engine.run(chk, "weng", walks, "walks", "TraceWs", TRACE_CONSTS, ["NoStepViolation"], "weng-trace",
                        what="the real connections", strip=("walks",), timeout=3400)
     for k, n in st["by_op"].items():
         ops[k] = ops.get(k, 0) + n
     chk.notes["executed_calls_by_action"] = ops
-    for need in ("W", "R", "Close"):
+    for need in ("W", "R", "Close", "Bulk"):
         if ops.get(need, 0) == 0:
             raise vp.Machinery("vacuous run: no " + need)
 
